@@ -10,10 +10,11 @@ from . import domsink
 
 class Opts:
     def __init__(self, scripting=True, iframe_srcdoc=False, quirks="NoQuirks", exact_errors=False, drop_doctype=False,
-                 context=None, context_attrs=(), form=False, ctx_scripting=True, chunks=None):
+                 context=None, context_attrs=(), form=False, ctx_scripting=True, chunks=None, script_detach=False, detach_plan=None):
         self.scripting, self.iframe_srcdoc, self.quirks, self.exact_errors = scripting, iframe_srcdoc, quirks, exact_errors
         self.drop_doctype, self.context, self.context_attrs, self.form, self.chunks = drop_doctype, context, context_attrs, form, chunks
         self.ctx_scripting = ctx_scripting
+        self.script_detach, self.detach_plan = script_detach, detach_plan
 
 
 def qualname(ns, local):
@@ -61,7 +62,22 @@ def run(m, chars, opts):
             guard += 1
             if res.variant == "Done" or guard > 64:
                 break
-            # Script / EncodingIndicator: the document is not modified and the encoding is kept; parsing resumes
+            # Script / EncodingIndicator: the encoding is kept and parsing resumes.  The script leaves the document alone,
+            # or (script_detach) removes one connected element from its parent before the collection runs
+            if res.variant == "Script":
+                k = m.notes["script_pauses"] = m.notes.get("script_pauses", 0) + 1
+                els = [h for h in sorted(st["nodes"]) if st["nodes"][h]["kind"] == "element"]
+                pick = None
+                if opts.detach_plan is not None:
+                    for (pk, ei) in opts.detach_plan:
+                        if pk == k and ei < len(els):
+                            pick = els[ei]
+                elif opts.script_detach:
+                    cands = [h for h in els if st["nodes"][h]["parent"] is not None]
+                    pick = m.choose([(None, True)] + [(h, True) for h in cands], "script detaches an element")
+                if pick is not None:
+                    domsink.detach(st, pick)
+                    m.notes.setdefault("detached", []).append([k, els.index(pick)])
             _pause(m, tk, res.variant + " result")
         _pause(m, tk, "chunk boundary")
     m.call("Tokenizer::end", [tkp])
